@@ -4,6 +4,7 @@ open E57 E57.Drv
 def dispatch (engine : String) (toks : List String) : String :=
   match engine with
   | "bits" => bitsLine toks
+  | "pages" => pagesLine toks
   | _ => "BADENGINE"
 
 partial def loop (engine : String) (h : IO.FS.Stream) (out : IO.FS.Stream) : IO Unit := do
